@@ -40,7 +40,8 @@ ReadArgWord(s, p) ==
   ELSE IF s[p] \in {cSQ, cDQ} THEN
      LET close == IndexFrom(s, p + 1, s[p]) IN
      IF close = 0 \/ close = p + 1 THEN [st |-> "unspec"]
-     ELSE IF ~AtBoundary(s, close + 1) THEN [st |-> "unspec"]
+     \* text glued to the closing quote is junk after the argument: the word is not in any argument language
+     ELSE IF ~AtBoundary(s, close + 1) THEN [st |-> "junk", w |-> SubSeq(s, p, close)]
      ELSE [st |-> "ok", w |-> SubSeq(s, p + 1, close - 1), n |-> close + 1, q |-> TRUE]
   ELSE LET n == WordLen(s, p)
        IN [st |-> "ok", w |-> SubSeq(s, p, p + n - 1), n |-> p + n, q |-> FALSE]
@@ -59,6 +60,7 @@ ReadArgs(s, p, e, k, acc) ==
     ELSE LET aw == ReadArgWord(s, q) IN
       IF aw.st = "missing" THEN [st |-> "rej", w |-> <<>>, fs |-> TRUE, missing |-> TRUE]
       ELSE IF aw.st = "unspec" THEN [st |-> "unspec"]
+      ELSE IF aw.st = "junk" THEN [st |-> "rej", w |-> aw.w, fs |-> FALSE, missing |-> FALSE]
       ELSE IF aw.q /\ ~LangQuotable(e.args[k]) THEN [st |-> "unspec"]
       ELSE IF ~aw.q /\ aw.w[1] \in {cSQ, cDQ} THEN [st |-> "unspec"]
       ELSE LET r == ArgParse(e.args[k], aw.w) IN
